@@ -162,6 +162,10 @@ func (c02Suite) Gen(rng *Rng, tier string, w *bufio.Writer, stats *Stats) {
 		emit("fragment:s1c", fg.countQuery(), 0, 0)
 		stats.Inc("fragment.s1c")
 	}
+	for i := 0; i < nfrag/2; i++ {
+		emit("fragment:s2n", fg.countHopQuery(), 0, 0)
+		stats.Inc("fragment.s2n")
+	}
 	for _, k := range []string{"", ":NodeKind1", ":NodeKind2", ":NodeKind1:NodeKind2", ":NodeKind2:NodeKind1"} {
 		emit("fragment:count", "match (n"+k+") return count(n)", 0, 0)
 		stats.Inc("fragment.count")
